@@ -12,12 +12,11 @@ CONSTANTS
   WakeAfterPush = TRUE
   Overflow = FALSE
   Hosts <- BothHosts
-  Muts = {"none"}
+  Muts = {"none","flushSeesCompleted","drainAfterBlocking","repaired"}
   Ops = {}
   Timers = {"s1"}
   Jobs = {"j1"}
   Owner <- OwnQ2
   AnyTurn = TRUE
 SPECIFICATION XSpec
-INVARIANTS XTypeOK PendingBound TypeOK RealSafe CtlClearAfterPoll CtlIgnoreFlush CtlNoTimeout CtlNoFlush CtlDrainAfterBlocking
-
+INVARIANTS XTypeOK PendingBound TypeOK RealSafe RepFlushSeesCompleted RepDrainAfterBlocking RepBoth
